@@ -48,7 +48,9 @@ pub fn gen_obs_context(src: &mut Src, cfg: &SemCfg) -> SemCtx {
 }
 
 pub fn gen_obs_program(src: &mut Src, cfg: &SemCfg, sc: &SemCtx) -> R {
-    let mut stmts = gen_statements(src, cfg, sc, 4, false, false);
+    // assignment targets include names bound to logging context functions (reading the target
+    // invokes the function) and never-bound names
+    let mut stmts = gen_statements(src, cfg, sc, 4, false, true);
     // statements that are nothing but a bare name bound to a logging context function
     let funcs = sc.funcs_of(Ty::Any);
     if !funcs.is_empty() {
